@@ -12,7 +12,7 @@ CONFIG = dict(
                "code on every run by executing both on generated histories (virtual time across the 30 s / 2 min / 3 min / 5 min / 30 min limits) "
                "and comparing acknowledgements, return values, kick/offline requests and the per-account record (state, time limits, lock, "
                "connection, parked login); the property monitor is evaluated on what the implementation answered.",
-    level_note="Trusted: Lean kernel, harness/driver line protocol and canonicalisation, the overlay shim (read-only accessors). The theorems are "
+    level_note="Trusted: Lean kernel, harness/driver line protocol and canonicalisation, the reflect-based record probe (fields located by type/shape, `?` when unresolved) and the one-line overlay calling the periodic update. The theorems are "
                "about the model; the differential run ties it to the code on sampled and (thorough) bounded-exhaustive histories only. Not driven: "
                "the service's own 30 s request timeout for an unanswered offline request (equivalent to an error reply, which is driven), and a scan "
                "finding two expired parked logins at once (Go map order decides which is dropped; the theorems cover every choice).",
@@ -50,7 +50,9 @@ CONFIG = dict(
         "Lean 4.33.0 kernel; axioms of every property theorem audited on each run (allowed: propext, Classical.choice, Quot.sound)",
         "hand-written model lean/Cell2v/Model/Center.lean tied to the Go code by the differential run of this check (harness/c18 + modeld_c18)",
         "property monitor lean/Cell2v/Spec/C18.lean (the statement of the property on observable histories)",
-        "overlay shim harness/c18/overlay/*.go: read-only accessors to players / kick-wait tasks and a direct call of the periodic update",
+        "overlay harness/c18/overlay/export_verif.go: one method calling the unexported periodic update; the per-account record is read through exported "
+        "API (GetState, FrontId, NetId, GetLogicId) and, for the lock / limits / parked task, with reflect+unsafe by field type and shape (never by name); "
+        "an unrecognised shape degrades to `?` in the observation (model echoes it), it does not fail the check",
         "go1.26 testing/synctest virtual clock; proto.actor local delivery; harness canonicalisation (times relative to the case start, kicks sorted)",
     ],
     assumptions=[
